@@ -213,6 +213,58 @@ def worker(shard, nshards, plan, quick):
                     if probs:
                         t = sqlglot.parse_one(sql, read=dialect or None)
                         snap = snapshot(t)
+            elif kind == "decorated":
+                # the same statement with a comment, a meta entry and (where inferable) a type on EVERY node: (a) the non-mutating
+                # calls must leave all of it untouched; (b) editing the decorations of a copy / deepcopy / transform(copy=True)
+                # result must not show in the original, and vice versa (shared mutable comment lists / meta dicts / type nodes)
+                import copy as _copy
+
+                from sqlglot.optimizer.annotate_types import annotate_types as _annotate
+
+                def decorate(t):
+                    try:
+                        t = _annotate(t, schema=SCHEMA1)
+                    except Exception:
+                        pass
+                    for i, n in enumerate(t.walk()):
+                        n.add_comments([f"c{i}"])
+                        n.meta["k"] = [i]
+                    return t
+
+                t = decorate(sqlglot.parse_one(sql, read=dialect or None))
+                snap = snapshot(t)
+                for name in [n for n in names if n.startswith("sql:")][:34] + ["sql_pretty:base", "transform_identity", "copy", "optimize", "diff_self_copy", "replace_tables", "subquery", "alias_"]:
+                    if name not in C:
+                        continue
+                    do(name, t)
+                    res["single"] += 1
+                    res["transitions"] += 1
+                    probs = after_problems(t, snap)
+                    for code, msg in probs:
+                        record(code, name + "@decorated", sql, dialect, msg)
+                    if probs:
+                        t = decorate(sqlglot.parse_one(sql, read=dialect or None))
+                        snap = snapshot(t)
+                for mk_name, mk in (("copy", lambda x: x.copy()), ("deepcopy", _copy.deepcopy), ("transform", lambda x: x.transform(treeops.tf_identity))):
+                    for edit_name, edit in (("add_comments", lambda n: n.add_comments(["zz"])), ("pop_comments", lambda n: n.pop_comments()),
+                                            ("meta_set", lambda n: n.meta.__setitem__("k2", 1)), ("meta_list_append", lambda n: n.meta["k"].append(9)),
+                                            ("comments_append", lambda n: n.comments.append("yy") if n.comments is not None else None),
+                                            ("type_set", lambda n: setattr(n, "type", "TEXT")),
+                                            ("type_edit", lambda n: n._type.set("nested", True) if n._type is not None and n._type is not n else None)):
+                        for edit_copy in (True, False):
+                            t = decorate(sqlglot.parse_one(sql, read=dialect or None))
+                            c = mk(t)
+                            target, other = (c, t) if edit_copy else (t, c)
+                            snap = snapshot(other)
+                            try:
+                                for n in list(target.walk()):
+                                    edit(n)
+                            except Exception:
+                                continue
+                            res["indep"] += 1
+                            res["transitions"] += 1
+                            for code, msg in after_problems(other, snap):
+                                record("independence." + code, f"{mk_name}:{edit_name}", sql, dialect, msg)
             elif kind == "pairs":
                 for n1 in pair_first:
                     for n2 in pair_first:
@@ -276,6 +328,10 @@ def run(ctx: Ctx) -> None:
     cl = [sql for sql, tags in clause_statements()]
     for d in (["", "tsql", "duckdb"] if quick else ["", "tsql", "duckdb", "mysql", "postgres", "bigquery", "snowflake", "spark", "oracle", "clickhouse"]):
         plan.append(("corpus", d, cl))
+    deco = k0 + [s_ for c_, s_, t_ in statements("", 1)][::(6 if quick else 1)] + [
+        "WITH x AS (SELECT 1 AS a), y AS (SELECT 2 AS b) SELECT a FROM x JOIN y ON a = b", "SELECT a FROM t UNION SELECT b FROM u ORDER BY 1 LIMIT 1",
+        "SELECT SUM(a) OVER (PARTITION BY b ORDER BY c) FROM t WINDOW w AS (PARTITION BY b)", "INSERT INTO t (a) SELECT a FROM u", "CREATE TABLE t (a INT NOT NULL, b TEXT)"]
+    plan.append(("decorated", "", deco))
     plan.append(("pairs", "", k0 + ([] if quick else [s for c, s, t in statements("", 1)][::25])))
     plan.append(("independence", "", k0 + [s for c, s, t in statements("", 1)][::(40 if quick else 8)]))
     res = ctx.run_shards(worker, ctx.jobs * 4, plan, quick)
